@@ -305,6 +305,11 @@ func (bu *BlockUtils) ValidateBlockProposal(ctx context.Context, blockHeight pri
 	var err error
 	b := asBlock(block)
 	switch {
+	case block == nil && n.w.cfg.LenientNilBlock:
+		// a consumer that does not look at a missing block (as the repository's own mock): the library must cope
+		n.w.ev("spi-validate n%d h%d nil block accepted by a lenient consumer", n.idx, blockHeight)
+		n.w.probe("lenient-nil-block-accepted")
+		return nil
 	case b == nil:
 		err = errors.New("nil block")
 	case b.H != uint64(blockHeight):
